@@ -243,7 +243,7 @@ def run(ctx):
                         dict(rep, check="Kepler's equation / true anomaly / half-angle", e=float(e), E=float(E), M=float(M), f=float(f)))
 
     # ---- A. single states from elements: every octant combination of (Omega, omega, E)
-    n_single = 512 if q else 512 * 8
+    n_single = 512 if q else 512 * 6
     for idx in range(n_single):
         k, oc = gen_elements(rng, idx)
         ctx.count(f"octants:Omega{oc[0]}")
@@ -283,7 +283,7 @@ def run(ctx):
         ctx.case(("A", tuple(hexes(k))), nontrivial=True, sample=dict(elements=fl(k), state=fl(s), back=fl(k2)) if idx < 2 else None)
 
     # ---- B. states built directly (not images of kepler2trs): state -> elements -> state
-    n_state = 150 if q else 1500
+    n_state = 120 if q else 1200
     for idx in range(n_state):
         s = gen_state(rng, gm)
         rep = dict(kind="state", how="PosVel(s, system='trs').kepler, .kepler.trs")
@@ -305,7 +305,7 @@ def run(ctx):
         ctx.case(("B", tuple(hexes(s))), nontrivial=True)
 
     # ---- C. arrays: (n, 6) elements -> (n, 6) states -> (n, 6) elements; row by row the same oracles; n = 1 included
-    n_arr = 40 if q else 300
+    n_arr = 32 if q else 240
     base = rng.randrange(512)
     for j in range(n_arr):
         n = 1 if j % 8 == 0 else rng.choice([2, 3, 4, 5, 8, 16])
